@@ -2,7 +2,8 @@
   Driver/Kinds/CoreC.lean — case kinds of C03 (mirrors harness/kinds_corec.go).
 
   wire  :=  version marker pt seq ts ssrc  <n> csrc*  ext  payload  pad
-  ext   :=  0 | 1 <n> item* | 2 <n> item* | 3 profile bytes          (none | one-byte | two-byte | legacy)
+  ext   :=  0 | 1 <n> item* stop | 2 appbits <n> item* | 3 profile bytes   (none | one-byte | two-byte | legacy)
+  stop  :=  none | some nibble bytes
   item  :=  p | e id bytes
   pad   :=  none | some filler-bytes
 
@@ -32,8 +33,11 @@ def rdExtBlock : Rd (Option ExtBlock) := do
   let t ← Rd.nat
   match t with
   | 0 => pure none
-  | 1 => do let is ← Rd.list rdItem; pure (some (.oneByte is))
-  | 2 => do let is ← Rd.list rdItem; pure (some (.twoByte is))
+  | 1 => do
+    let is ← Rd.list rdItem
+    let stop ← Rd.opt (do let n ← Rd.u8; let r ← Rd.bytes; pure (n, r))
+    pure (some (.oneByte is stop))
+  | 2 => do let a ← Rd.u8; let is ← Rd.list rdItem; pure (some (.twoByte a is))
   | 3 => do let p ← Rd.u16; let b ← Rd.bytes; pure (some (.legacy p b))
   | _ => Rd.fail
 
@@ -64,8 +68,10 @@ def c03wire : Handler :=
     rdObs
     (fun (_, b, qs) => Pred.C03.modelObs b qs)
     (fun (w, b, qs) o => Pred.C03.wire w b qs o)
-    (fun (w, _, _) => w.WF && !w.reserved)
-    (fun (w, _, _) _ => if Pred.C03.reservedRegion w then some "c03_reserved_id" else none)
+    (fun (w, _, _) => Pred.C03.wireWF w)
+    (fun (w, _, _) _ =>
+      if Pred.C03.reservedRegion w then some "c03_reserved_id"
+      else if Pred.C03.appbitsRegion w then some "c03_twobyte_appbits" else none)
 
 /-- `c03.mut` -/
 def c03mut : Handler :=
@@ -103,6 +109,7 @@ def rdViewObs : Rd Pred.C03.ViewObs := do
 /-- `c03.view` -/
 def c03view : Handler :=
   mkHandler rdViewIn rdViewObs Pred.C03.modelView Pred.C03.view Pred.C03.viewWF
+    (fun i _ => if Pred.C03.viewAppbitsRegion i then some "c03_twobyte_appbits" else none)
 
 def handlers : List (String × Handler) :=
   [("c03.wire", c03wire), ("c03.mut", c03mut), ("c03.view", c03view)]
